@@ -128,7 +128,7 @@ func (w *ClockWorld) open(mode rosmar.OpenMode) {
 
 func (w *ClockWorld) Bucket() *rosmar.Bucket { return w.b1 }
 
-var clockEPs = []string{"Add", "Set", "WriteCas", "Remove", "Delete", "Update", "Incr", "SetXattrs", "UpdateXattrs", "RemoveXattrs", "DeleteSubDocPaths",
+var clockEPs = []string{"B.Set", "SetWithMeta/below", "SetWithMeta/above", "Add", "Set", "WriteCas", "Remove", "Delete", "Update", "Incr", "SetXattrs", "UpdateXattrs", "RemoveXattrs", "DeleteSubDocPaths",
 	"WriteWithXattrs", "WriteTombstoneWithXattrs", "WriteResurrectionWithXattrs", "WriteUpdateWithXattrs", "DeleteWithXattrs", "WriteSubDoc", "SubdocInsert", "b2.Set"}
 
 func (w *ClockWorld) Alphabet(tier int) []string {
@@ -138,11 +138,14 @@ func (w *ClockWorld) Alphabet(tier int) []string {
 			if tier == 0 && c == "+1s" && ep != "Set" {
 				continue
 			}
-			ops = append(ops, ep+"/"+c)
+			if strings.HasPrefix(ep, "SetWithMeta") && c != "still" {
+				continue
+			}
+			ops = append(ops, ep+"|"+c)
 		}
 	}
 	if w.cfg.Disk {
-		ops = append(ops, "restart/-1h", "restart/still")
+		ops = append(ops, "restart|-1h", "restart|still")
 	}
 	return ops
 }
@@ -159,7 +162,7 @@ func moveClock(c string) {
 func (w *ClockWorld) Apply(op string) (string, []Violation) {
 	w.step++
 	c := &checker{op: op, pre: "clock"}
-	parts := strings.Split(op, "/")
+	parts := strings.Split(op, "|")
 	ep := parts[0]
 	if ep == "restart" {
 		w.feed.CloseTerm()
@@ -182,9 +185,37 @@ func (w *ClockWorld) Apply(op string) (string, []Violation) {
 	if ep == "b2.Set" {
 		cl, bucket = w.a2, w.b2
 	}
+	collName := "sc.A/"
+	if ep == "B.Set" {
+		cl, collName = coll(w.b1, NameB), "sc.B/"
+	}
+	if strings.HasPrefix(ep, "SetWithMeta") {
+		// a caller-chosen CAS is exempt from C04 itself, but it must not drag the persisted high-water
+		// mark (which seeds the clock after a restart) below what the clock has handed out
+		d, err := rosmar.VerifDumpAll(w.b1)
+		must(err)
+		var cur uint64
+		if r := rowsOf(d)["sc.A/k"]; r != nil {
+			cur = r.Cas
+		}
+		nc := w.issued + 0x40000
+		if ep == "SetWithMeta/below" {
+			nc = uint64(vrt.Epoch) - 0x1000000 + uint64(w.step)
+		}
+		err = w.a1.SetWithMeta(ctx, "k", cur, nc, 0, nil, []byte(`{"v":"meta"}`), sgbucket.FeedDataTypeJSON)
+		vrt.Quiesce()
+		d, _ = rosmar.VerifDumpAll(w.b1)
+		if d.BucketLastCas < w.issued1 {
+			c.add("C04", "highwater", "%s: bucket.lastCas %d fell below the highest CAS this bucket handed out (%d): a reopened bucket would seed its clock too low", ep, d.BucketLastCas, w.issued1)
+		}
+		if err != nil {
+			return "err:" + ErrClass(err), c.out
+		}
+		return "ok", c.out
+	}
 	d, err := rosmar.VerifDumpAll(bucket)
 	must(err)
-	pre := rowsOf(d)["sc.A/k"]
+	pre := rowsOf(d)[collName+"k"]
 	var cur uint64
 	if pre != nil {
 		cur = pre.Cas
@@ -198,7 +229,7 @@ func (w *ClockWorld) Apply(op string) (string, []Violation) {
 		var added bool
 		added, err = cl.Add("k", 0, []byte(`{"v":1}`))
 		refused = !added
-	case "Set", "b2.Set":
+	case "Set", "b2.Set", "B.Set":
 		err = cl.Set("k", 0, nil, []byte(`{"v":2}`))
 	case "WriteCas":
 		casOut, err = cl.WriteCas("k", 0, cur, []byte(`{"v":3}`), 0)
@@ -249,7 +280,7 @@ func (w *ClockWorld) Apply(op string) (string, []Violation) {
 	}
 	d, err = rosmar.VerifDumpAll(bucket)
 	must(err)
-	post := rowsOf(d)["sc.A/"+key]
+	post := rowsOf(d)[collName+key]
 	if post == nil {
 		c.add("C04", "row", "%s succeeded but stored nothing", op)
 		return result, c.out
@@ -263,7 +294,7 @@ func (w *ClockWorld) Apply(op string) (string, []Violation) {
 	if _, _, rcas, rerr := cl.GetWithXattrs(ctx, key, []string{"_s"}); rerr == nil && rcas != post.Cas {
 		c.add("C04", "read-cas", "%s: read CAS %d, stored %d", ep, rcas, post.Cas)
 	}
-	if bucket == w.b1 {
+	if bucket == w.b1 && ep != "B.Set" {
 		evs := w.feed.Events[before:]
 		if len(evs) != 1 || evs[0].Cas != post.Cas {
 			c.add("C04", "event-cas", "%s: feed events %v do not carry the stored CAS %d", ep, evs, post.Cas)
